@@ -2,7 +2,7 @@
    correspondence check (vm_compute in the kernel, extracted OCaml) call only this. *)
 From Coq Require Import ZArith List Bool.
 Import ListNotations.
-From Eudoxia Require Import Model.Codec Model.RunLife Model.RunExec Model.RunTime Model.RunSim Model.RunCsv Model.RunTools Model.RunGen Model.RunTrace Model.RunRest Model.RunRestSim.
+From Eudoxia Require Import Model.Codec Model.RunLife Model.RunExec Model.RunTime Model.RunSim Model.RunCsv Model.RunCsvLazy Model.RunTools Model.RunGen Model.RunTrace Model.RunRest Model.RunRestSim.
 
 Definition run (kind : Z) (l : list Z) : list Z :=
   match kind with
@@ -16,6 +16,7 @@ Definition run (kind : Z) (l : list Z) : list Z :=
   | 14 => run_csv_read l
   | 15 => run_gen l
   | 24 => run_csv_write l
+  | 34 => run_csv_lazy l
   | 19 => run_rest l
   | 29 => run_rest_codec l
   | 39 => run_restsim l
